@@ -65,18 +65,22 @@ func c01Years(c *ctx) {
 						}
 					}
 				}
-				// stepping n days on the lunar side / on the civil side
-				n := ns[k%len(ns)]
-				if y+n/300 >= 1 && y+n/300 <= 9998 {
+				// stepping n days on the lunar side / on the civil side: always +1 and -1, plus a rotating n
+				nxs := [][]int{}
+				for _, n := range []int{1, -1, ns[k%len(ns)]} {
+					if y+n/300 < 1 || y+n/300 > 9998 || (y == 1 && n < 0 && m == 1) {
+						continue
+					}
 					var x, z *calendar.Lunar
 					pn, _ := try(func() { x = a.Next(n); z = s.NextDay(n).GetLunar() })
 					if pn {
-						row["nx"] = []int{n, 1}
+						nxs = append(nxs, []int{n, 1})
 					} else {
 						j, sd, _ := projJD(x.GetSolar().GetJulianDay())
-						row["nx"] = append(append([]int{n, 0}, lun(x)...), append([]int{j, sd}, lun(z)...)...)
+						nxs = append(nxs, append(append([]int{n, 0}, lun(x)...), append([]int{j, sd}, lun(z)...)...))
 					}
 				}
+				row["nx"] = nxs
 				rows = append(rows, row)
 			}
 		}
